@@ -157,14 +157,22 @@ pub fn evaluate(d: &mut Driver, case: &Case) -> Outcome {
                     return Outcome { impl_rec: "skipped".into(), model_rec, impl_run: None, model_run: mr, agree: true, skipped_fuel: true };
                 }
             }
-            let ir = imp::run_impl(&case.src, &case.path, case.fuel, 48);
-            let skipped = matches!(ir.end, imp::End::Fuel);
+            // the implementation's statement budget is larger than the model's (200 000 > 40 000, both count statement
+            // starts): a program the model finishes must be finished by the implementation as well; only the
+            // call-depth limit (native stack, outside the properties) still leads to a skip
+            let ir = imp::run_impl(&case.src, &case.path, case.fuel.max(200_000), 48);
+            let out_of_statements = matches!(ir.end, imp::End::Fuel) && imp::last_fuel_was_statement_budget();
+            let skipped = matches!(ir.end, imp::End::Fuel) && !out_of_statements;
             // transcendental MATH results: both sides are faithful, not identical (Rust computes asinh / acosh /
             // atanh by its own formulas, the model calls libm): compare numerically
             let libm = case.tags.iter().any(|t| t == "math-libm" || t.starts_with("MATH."));
+            // cases outside the model's domain (tagged by their generator, with the reason in DESIGN.md) are run for the
+            // implementation-only oracle alone
+            let impl_only = case.tags.iter().any(|t| t == "impl-only");
             let agree = match &mr {
                 Some(m) => {
-                    skipped
+                    impl_only
+                        || skipped
                         || imp::runs_agree(&ir, m)
                         || (libm && ir.class() == m.class() && imp::outputs_close(&ir.output, &m.output, 64))
                 }
